@@ -811,6 +811,8 @@ const LABEL_PARTS: &[&str] = &[
     "b1", "b10", "B0", "o7", "o17", "b_1", "o_7", "b2", "r10", "R07x", "r8", "R77", "100", "7", "007", "12294", "10", "2", "0", "1", "20", "255", "256", "7up", "0b1", "00",
     // x-prefixed names that are no hex literals, among them the extension's mnemonics behind the prefix
     "xpush", "Xpop", "xcall", "xrets", "xval", "x_1", "0xcall", "xhalt", "xyz", "0Xrets",
+    // names that begin like a register or like an extension mnemonic and go on: plain labels, with or without the flag
+    "r2d2", "R1_loop", "R0_SAVE", "r7_", "r0x", "popcount", "caller", "callback", "pusher", "retsub", "pops", "Pushd", "CALLS",
     // directive names without their dot: plain labels
     "end", "END", "End", "orig", "ORIG", "fill", "blkw", "stringz", "break", "endm", "align", "text", "data", "global", "ds",
 ];
